@@ -1113,7 +1113,7 @@ pub fn run(ctx: &mut Ctx) {
                 }
                 if stalls == 3 {
                     confirmed = true;
-                    let sc = Scenario { n: 3, init: vec![(1, 2, 9)], threads: vec![vec![*reader], vec![writer.0, writer.1]] };
+                    let _sc = Scenario { n: 3, init: vec![(1, 2, 9)], threads: vec![vec![*reader], vec![writer.0, writer.1]] };
                     ctx.stats.report(Finding {
                         property: "C17".into(),
                         flavour: fl.into(),
